@@ -338,6 +338,23 @@ VIA_DONORS = [[], [op_single()], [op_multi(4)], [op_pflood(), op_single()],
               [op_single(), op_snap("zz", 1, 1), op_mst("kruskal", "carve"), op_multi(0)]]
 
 
+def _other_grid(vr, grid):
+    import copy as _copy
+    g2 = _copy.deepcopy(grid)
+    g2.pop("ov", None)
+    if grid["t"] == "mesh":
+        g2 = lattice_mesh(vr, vr.randint(1, 3), vr.randint(1, 3), holes=vr.choice([0, 1]))
+        g2["sc"] = grid.get("sc", 0)
+        return g2
+    if grid["t"] == "raster":
+        g2["nr"], g2["nc"] = grid["nc"] + vr.randint(0, 2), max(2, grid["nr"] + vr.randint(-1, 1))
+        return g2
+    if grid["t"] == "profile":
+        g2["n"] = grid["n"] + vr.randint(1, 3)
+        return g2
+    return None
+
+
 def flow_case(cid, grid, steps, timeout_ms=None):
     # about one graph in four receives its operator sequence through the public move assignment of
     # flow_operator_sequence (onto an empty sequence or onto one holding other operators): the
@@ -353,6 +370,20 @@ def flow_case(cid, grid, steps, timeout_ms=None):
         if st.get("op") == "mask" and "form" not in st and vr.random() < 0.35:
             st["form"] = vr.choice(["col", "xtensor", "expr", "flip_own"])
     c = dict(kind="flow", id=cid, grid=grid, steps=steps)
+    # about a third of the small cases keep a SECOND grid object of the same type alive (another mesh, a raster
+    # or profile of another shape) and look nodes up on both grids, through the grid API, right before updates
+    if vr.random() < 0.35 and grid_size(grid) <= 200 and not any(st.get("op") == "touch" for st in steps):
+        g2 = _other_grid(vr, grid)
+        if g2 is not None:
+            c["grid2"] = g2
+            n1, n2 = grid_size(grid), grid_size(g2)
+            out = []
+            for st in steps:
+                if st.get("op") == "update" and vr.random() < 0.6:
+                    out.append(dict(op="touch", own=[0] + [vr.randrange(n1) for _ in range(2)],
+                                    other=[0] + [vr.randrange(n2) for _ in range(2)], route=1 if vr.random() < 0.3 else 0))
+                out.append(st)
+            c["steps"] = out
     if timeout_ms:
         c["timeout_ms"] = timeout_ms
     return c
